@@ -1178,8 +1178,34 @@ def realtime_crosscheck(binary):
     return outs[0]
 
 
+def apalache_expiry(rep):
+    """unbounded part of C12: Apalache discharges the inductive invariant of spec/apalache/Expiry.tla (base + step)"""
+    import subprocess, shutil
+    d = os.path.join(vlib.SPEC, 'apalache')
+    out_dir = os.path.join(vlib.workdir(), 'apa')
+    res = []
+    for what, extra in (('base', ['--init=Init', '--length=0']), ('step', ['--init=IndInit', '--length=1'])):
+        try:
+            p = subprocess.run(['apalache-mc', 'check', '--cinit=ConstInit', '--inv=IndInv', '--out-dir=' + out_dir] + extra + ['Expiry.tla'],
+                               cwd=d, stdout=subprocess.PIPE, stderr=subprocess.STDOUT, text=True, timeout=600)
+            ok = 'The outcome is: NoError' in p.stdout
+            res.append((what, ok, p.stdout[-400:] if not ok else ''))
+        except (OSError, subprocess.TimeoutExpired) as e:
+            res.append((what, None, str(e)))
+    shutil.rmtree(out_dir, ignore_errors=True)
+    rep.extra['apalache_expiry'] = [{'obligation': w, 'discharged': ok} for w, ok, _ in res]
+    if any(ok is False for _, ok, _ in res):
+        rep.viol.append({'prop': 'C12', 'pred': 'model:Expiry.IndInv', 'i': 0, 'tag': 'apalache', 'trace': None, 'event': None,
+                         'model_output': '\n'.join(o for _, _, o in res)})
+    elif all(ok for _, ok, _ in res):
+        rep.notes.append('Apalache: Init => IndInv and IndInv /\\ Next => IndInv\' discharged for Expiry.tla (unbounded clock and counters, D in 1..100000, 3 aircraft)')
+    else:
+        rep.notes.append('Apalache not available or timed out (not load-bearing): %s' % res)
+
+
 def c12(tier):
     rep = Report('C12', tier)
+    apalache_expiry(rep)
     rng = random.Random(vlib.seed())
     alpha = scn.parse_literal_alphabet('expiry')
     groups = []
